@@ -1862,6 +1862,10 @@ where
                 }
             }
             Message::Subscribe(subscribe) => {
+                // Nb. The time range is set by the remote and can't be trusted to be valid.
+                if subscribe.since > subscribe.until {
+                    return Err(session::Error::Misbehavior);
+                }
                 // Filter announcements by interest.
                 match self
                     .db
